@@ -135,7 +135,11 @@ func genOps(prop string, r *Rng, n int, tier string, emit func(string)) {
 			switch r.Intn(12) {
 			case 0, 1, 2, 3, 4, 5:
 				k := decKinds[r.Intn(len(decKinds))]
-				emit("dec." + k + " " + hx(genDecodeInput(r, k)))
+				if r.Chance(1, 4) {
+					emit("decp." + k + " " + hx(genDecodeInput(r, k)))
+				} else {
+					emit("dec." + k + " " + hx(genDecodeInput(r, k)))
+				}
 			case 6:
 				k := subDecKinds[r.Intn(len(subDecKinds))]
 				var b []byte
@@ -361,6 +365,11 @@ func genOps(prop string, r *Rng, n int, tier string, emit func(string)) {
 					emit(opWith("framed", p))
 				}
 			}
+			if r.Chance(1, 25) {
+				w := &W{}
+				putItem(w, genItem(r, r.Bool()))
+				emit("itemlen " + w.String())
+			}
 		}
 		reps := 1
 		if thorough {
@@ -518,6 +527,9 @@ func genOps(prop string, r *Rng, n int, tier string, emit func(string)) {
 			case 5:
 				emit("cdst " + tk)
 			}
+			if r.Chance(1, 20) {
+				emit(fmt.Sprintf("newcname %d %s", r.Bits(32, 32), hx(r.Bytes(r.Len(6, 0, 255)))))
+			}
 		}
 	case "C12":
 		for i := 0; i < n; i++ {
@@ -605,6 +617,11 @@ func genOps(prop string, r *Rng, n int, tier string, emit func(string)) {
 					emit("dec.REMB " + hx(rembWire(r, exp, mant, 0)))
 				}
 			}
+		}
+		for i := 0; i < n/10; i++ {
+			p := genValue(r, "REMB", r.Chance(1, 5)).(*rtcp.ReceiverEstimatedMaximumBitrate)
+			sz := p.MarshalSize()
+			emit(fmt.Sprintf("rembto %s %d", bodyTokens(p), r.Pick(0, 19, sz-1, sz, sz, sz+1, sz+64)))
 		}
 	case "C15":
 		for i := 0; i < n; i++ {
@@ -774,6 +791,10 @@ func genOps(prop string, r *Rng, n int, tier string, emit func(string)) {
 			}
 			if r.Chance(1, 4) {
 				emit(genReuseOp(r))
+			}
+			if r.Chance(1, 12) {
+				p := genValue(r, "REMB", false).(*rtcp.ReceiverEstimatedMaximumBitrate)
+				emit(fmt.Sprintf("rembto %s %d", bodyTokens(p), p.MarshalSize()+r.Pick(0, 0, 1, 16)))
 			}
 		}
 	default:
